@@ -16,7 +16,7 @@ def profile(name, rng):
                     putlocks=rng.random() < 0.3)
         w.update(map=1.5, imap=1, imap_u=1, die=0.5, dup=1.0, discard=0.3,
                  terminate_job=0.2, apply_handler=1, apply_unpicklable=0.3,
-                 multi_unpicklable=0.3)
+                 multi_unpicklable=0.3, imap_raising=0.4)
         if base['pool_hard'] or base['pool_soft']:
             # handler-path applies would start the real scanner thread
             w.update(apply_handler=0, apply_unpicklable=0)
